@@ -326,7 +326,8 @@ func (self *BinaryConv) unmarshalMap(ctx context.Context, resp http.ResponseSett
 		return wrapError(meta.ErrRead, "parse MapKey Tag error", err)
 	}
 	mapKeyDesc := fd.Key()
-	isIntKey := (mapKeyDesc.Type() == proto.INT32) || (mapKeyDesc.Type() == proto.INT64) || (mapKeyDesc.Type() == proto.UINT32) || (mapKeyDesc.Type() == proto.UINT64)
+	// every non-string key kind (all integer kinds and bool) is written as a bare scalar and must be quoted
+	isIntKey := mapKeyDesc.Type().IsInt() || mapKeyDesc.Type() == proto.BOOL
 	if isIntKey {
 		*out = append(*out, '"')
 	}
